@@ -1,5 +1,6 @@
-// C09 — constructor of a deserializer positioned in the value place (fields are private to this module)
+// C09 — constructors for the harness (fields / types are private to this module)
 use super::*;
 impl<'de> URLEncodedDeserializer<'de> {
     pub(crate) fn v_at_value(input: &'de [u8]) -> Self { Self { input, side: ParsingSide::Value } }
 }
+pub(crate) fn c09_map_access<'amp, 'de>(de: &'amp mut URLEncodedDeserializer<'de>) -> impl serde::de::MapAccess<'de, Error = super::super::Error> + 'amp { AmpersandSeparated::new(de) }
